@@ -142,6 +142,22 @@ fn c01_family<S: Sch>(t: Tier, seed: u64, out: &mut Vec<Entry>) {
         let c = mk(vec![PolySpec::new(2)], 0).points(2, vec![(0, 0), (0, 1)]);
         add("1p2z-alias-batch", c, Mode::Batch);
     }
+    // single opening of three polynomials listed in descending label order on both sides
+    {
+        let mut c = mk(vec![PolySpec::new(2).conc(), PolySpec::new(2).conc(), PolySpec::new(2).conc()], 0);
+        c.rev_prover = true;
+        c.rev_verifier = true;
+        add("3p1z-single-descending-labels", c, Mode::Single);
+    }
+    if name == "ligero-uni" {
+        // a coefficient matrix with more than two rows (a low security parameter makes few column openings suffice)
+        for n in if quick { vec![64usize] } else { vec![64usize, 256] } {
+            let mut c = mk(vec![PolySpec::new(n).conc()], 0);
+            c.sz = Size::uni(300, 300, 0);
+            c.sz.ligero = (20, 4, true);
+            add(&format!("1p1z-{}coeffs-lambda20", n), c, Mode::Single);
+        }
+    }
     if matches!(name, "ligero-uni" | "ligero-ml") {
         // parameters without the well-formedness check, two operations on one sponge
         let mut c = mk(vec![PolySpec::new(2).conc(), PolySpec::new(2).conc()], 0).points(2, vec![(0, 0), (1, 1)]);
@@ -325,6 +341,13 @@ fn c11_family<S: Sch>(t: Tier, seed: u64, out: &mut Vec<Entry>) {
     add("hist-o", mk(vec![PolySpec::new(2)], 1, vec![(0, 0)]), Box::new(|c| c11::lockstep::<S>(c, &[Op::Open(0)])), false);
     add("hist-oo", mk(conc(2), 2, two.clone()), Box::new(|c| c11::lockstep::<S>(c, &[Op::Open(0), Op::Open(1)])), false);
     add("hist-ob", mk(conc(2), 2, two.clone()), Box::new(|c| c11::lockstep::<S>(c, &[Op::Open(1), Op::Batch])), false);
+    {
+        // two polynomials opened at one point, listed in descending label order on both sides, then a batch
+        let mut c = mk(conc(2), 2, vec![(0, 0), (1, 0), (1, 1)]);
+        c.rev_prover = true;
+        c.rev_verifier = true;
+        add("hist-ob-descending-labels", c, Box::new(|c| c11::lockstep::<S>(c, &[Op::Open(0), Op::Batch])), false);
+    }
     add("hist-bo", mk(conc(2), 2, two.clone()), Box::new(|c| c11::lockstep::<S>(c, &[Op::Batch, Op::Open(0)])), false);
     add("hist-oc", mk(conc(2), 2, two.clone()), Box::new(|c| c11::lockstep::<S>(c, &[Op::Open(0), Op::Comb])), false);
     add("hist-obc", mk(conc(2), 2, two.clone()), Box::new(|c| c11::lockstep::<S>(c, &[Op::Open(0), Op::Batch, Op::Comb])), false);
@@ -740,6 +763,11 @@ fn catalogue_inner(prop: &str, t: Tier, seed: u64, out: &mut Vec<Entry>) {
                 let c = mk(Size::uni(3, 3, 1), vec![PolySpec::new(2).hide(1).bound(2)]);
                 let c2 = c.clone();
                 let mut en = e("ipa/h1-bound2".into(), t, "coefficients, blinding scalars", "hiding, degree bound 2".into(), move || c07::ipa(&c2)); en.funcs = f.clone(); out.push(en);
+                for len in [1usize, 2] {
+                    let c = mk(Size::uni(3, 3, 1), vec![PolySpec::new(len).hide(1)]);
+                    let c2 = c.clone();
+                    let mut en = e(format!("ipa/open-masking-{}coeff", len), t, "coefficients, point, every RNG draw of commit and open", format!("hiding polynomial with {} coefficient(s) under supported degree 3", len), move || c07::ipa_open_masking(&c2)); en.funcs = f.clone(); out.push(en);
+                }
                 let c = mk(Size::mv(2, 2, 1), vec![PolySpec::new(2).hide(1)]);
                 let c2 = c.clone();
                 let mut en = e("pst13/h1".into(), t, "coefficients, point, challenge, blinding polynomial", "2 variables, degree 2 parameters, hiding bound 1".into(), move || c07::pst13(&c2)); en.funcs = f.clone(); if quick { en.lim.wall_s = 60.0; } out.push(en);
